@@ -101,6 +101,36 @@ def end_cases(rng):
                     b2 = body + tail if tail.startswith(' Qin') else body
                     out.append({'src': 'Qpre ' + body + tail, 'opts': {'pack': '*', 'lang': lang}, 'multi': False, 'kind': 'end', 'span': (5, 5 + len(b2))})
     return out
+def heading_tail_cases(rng):
+    """headings whose argument ends with a token longer than one character (\\LaTeX, --, an accent, a formula), in the text, in the
+    body of a user macro (everything then maps into the call) and as a single token without braces: the full stop the heading
+    appends (and everything else it generates) maps into the construct"""
+    heads = ['\\section', '\\subsection', '\\subsubsection', '\\chapter', '\\part', '\\title', '\\section*', '\\paragraph', '\\subparagraph']
+    lasts = ['\\LaTeX', '\\TeX', '--', '---', "''", '\\dots', '\\ss', 'Qlast', '\\"a', '\\LaTeX{}', '\\textbf{Qbold}', '$x$', '\\S', '!', '\\,']
+    out = []
+    for h in heads:
+        for l in lasts:
+            w = 'Q' + ''.join(rng.choice('abcdefghijklmnopqrstuvwxyz') for _ in range(4))
+            # (a) the heading comes from the body of a user macro: everything it prints maps into the call
+            for name in ('\\t', '\\tool', '\\averylongmacroname'):
+                d = '\\newcommand{%s}{%s{Working with %s}}\n\n' % (name, h, l)
+                for post in (' Qpost Qtext', '\nQpost', '', '\n\nQpost'):
+                    src = d + 'Qpre\n\n' + name + post
+                    a = len(d) + 6
+                    out.append({'src': src, 'opts': {'pack': '*', 'lang': 'en'}, 'multi': False, 'kind': 'headtail', 'span': (a, a + len(name)),
+                                'genwords': True})
+            # (b) braced heading in the text
+            body = '%s{%s %s}' % (h, w, l)
+            for post in (' Qpost', '\nQpost', '', '\n\nQpost'):
+                out.append({'src': 'Qpre\n\n' + body + post, 'opts': {'pack': '*', 'lang': 'en'}, 'multi': False, 'kind': 'headtail', 'span': (6, 6 + len(body))})
+        # (c) single-token argument without braces
+        for tokn in ('A', '7', '\\LaTeX', '\\S'):
+            if h.endswith('*'):
+                continue
+            body = '%s %s' % (h, tokn)
+            for post in (' Qpost', '\nQpost', '', 'Qpost' if not tokn[-1].isalpha() or not tokn.startswith('\\') else ' Qpost'):
+                out.append({'src': 'Qpre\n\n' + body + post, 'opts': {'pack': '*', 'lang': 'en'}, 'multi': False, 'kind': 'headtail', 'span': (6, 6 + len(body))})
+    return out
 def judge_end(c, r):
     if r['outcome'] != 'ok' or r['stderr']:
         return []
@@ -172,7 +202,7 @@ def run(ctx):
             ctx.sample({'src': c['src'][:300], 'uses': c['callspans'][:5]})
     # every declared macro / environment by signature as the last thing of the text and followed by text, en/de/ru:
     # whatever it generates maps into its own span
-    ecs = end_cases(rng)
+    ecs = end_cases(rng) + heading_tail_cases(rng)
     eres = ctx.pmap(t2t.run_case, ecs)
     for c, r in zip(ecs, eres):
         ctx.case(c['src']); ctx.count('construct_at_end')
